@@ -639,7 +639,7 @@ CFG = {"oracles": (), "n_bundles": 26, "hook": "gx.props.c12.install", "tie": Fa
                    # property's histories, as for C09 / C10; kinds added to the shared generator after this
                    # check was written are switched off here and enabled one by one
                    "stale_undo": 0, "ref_into_summary": 0, "remove_summary_widget": 1, "type_change_write": 1,
-                   "unhashable_key": 0.5, "agg_unsorted": 0.3}}
+                   "unhashable_key": 0.5, "agg_unsorted": 0.3, "summary_chain": 4, "column_cycle": 0}}
 
 
 def run(ck):
